@@ -240,6 +240,12 @@ void SkipRecord(Byte Header, char const* Name, FILE* f) {
         if (!Read4(f, &StringLen)) {
             ChkIO(Name);
         }
+        /* a damaged file must not send us backwards (or nowhere at all) */
+
+        if ((RelocCount > 0x03ffffff) || (ExportCount > 0x03ffffff)
+            || (StringLen > 0x3fffffff)) {
+            FormatError(Name, "invalid length of relocation info");
+        }
         Length = (16 * RelocCount) + (16 * ExportCount) + StringLen;
         break;
     default:
